@@ -1,7 +1,7 @@
 """C02 -- macro parameters bind and substitute exactly as in TeX (TexMacro.tla)."""
 import json
 from vlib import *
-from texvm import texvm_part, texvm_selftest
+from texvm import texvm_part, texvm_selftest, texvm_consistency
 
 LEVEL = "model_checking"
 
@@ -50,6 +50,7 @@ def run(ctx):
         "\\endlinechar=-1 so that no end-of-line token is appended to the call",
     ]
     # ---- the composed model: whole programs over the full primitive set (TexVM.tla) ------------
+    texvm_consistency(ctx, "macro")
     texvm_part(ctx, 6000 if ctx.quick else 120000, 202)
 
 
